@@ -9,25 +9,46 @@ from props.bngen import hx
 from props.c03 import Cv
 
 TRUSTED = [
-    "specification: Spec/Sig.lean (FIPS 186-4 / SEC 1 ECDSA verification with public-key validation; RFC 8017 RSAVP1 + EMSA-PSS (sLen = 0) / "
-    "EMSA-PKCS1-v1_5 verification; the schemes' defining equations for EC-Schnorr, vBNN-IBS, Camenisch-Stadler proofs / signatures of knowledge "
-    "and the ring signatures built from them), executed by the compiled Lean driver over the affine arithmetic of Spec/Curve.lean",
-    "class C (compared with the specification on the presented lines only): every verdict of the real verifiers and every output of the "
-    "real key generators / signers; the theorems are about the specification's own algebra (completeness, malleability, RSA/CRT "
-    "round trip over abstract groups / Z/nZ), soundness 'accepts only if the defining equation holds' is by construction of the "
-    "specification verifier plus this comparison, not a theorem about the C code",
-    "SHA-256, MGF1 are the specifications of C14; curve arithmetic is the specification of C03; curve parameters are those of C18",
-    "signers draw their nonces from the library DRBG (seeded per line): the produced signature is checked to verify under the "
-    "specification, its exact value is not predicted",
+    "specification: Spec/Sig.lean — FIPS 186-4 / SEC 1 ECDSA verification with public-key validation; RFC 8017 RSAVP1 + EMSA-PSS-VERIFY "
+    "(sLen = 0, the library's parameter) / EMSA-PKCS1-v1_5 by re-encoding / the library's BASIC padding; the defining equations of relic's "
+    "EC-Schnorr variant, vBNN-IBS, Camenisch-Stadler proofs / signatures of knowledge (DL, OR), extendable ring signatures (ers), their "
+    "same-message-linkable (smlers) and threshold (etrs) variants — executed by the compiled Lean driver over Spec/Curve.lean; scalar "
+    "multiplications are evaluated in Jacobian coordinates (Spec/CurveFast.lean), proved equal to the affine definition "
+    "(fast_evaluator_exact) and re-evaluated with the affine definition on a deterministic sample of the lines (tag affine-recheck)",
+    "pairing-based schemes (BLS, Boneh-Boyen, ZSS, Camenisch-Lysyanskaya A / C / blocks, Pointcheval-Sanders single / blocks) are decided in "
+    "the discrete-logarithm-oracle formulation: the line carries the secret multipliers of the G2 public keys, the specification decides the "
+    "equivalent G1 equation; the equivalence theorems (bls_equation … ps_equation) hold for every bilinear map that is non-degenerate at the "
+    "generator — that the implemented pairing is such a map is property C04 and is NOT checked here; statements about G2 elements themselves "
+    "(generated public keys = [sk]g2, ZSS signatures, malformed keys, g2_is_valid) are decided with the affine Fp2 arithmetic of "
+    "Spec/Fp2Curve.lean on the twist parameters printed by the running library; H(m) of BLS and of the linkable ring signature (hash to "
+    "curve) is taken from the oracle line (property C13); the GT generator passed to cp_bbs_ver / cp_zss_ver is gt_get_gen's",
+    "class C (compared with the specification on the presented lines only): every verdict of every real verifier and every output of the "
+    "real key generators / signers (nonces come from the library DRBG seeded per line; the produced signature is checked to satisfy the "
+    "specification verifier, its exact value is not predicted, except RSA where the signature is deterministic and predicted exactly, "
+    "plain and through the CRT); the theorems are about the specification's own algebra — completeness (ECDSA, EC-Schnorr, SoK/PoK of a "
+    "discrete logarithm, vBNN-IBS, RSASSA-PSS end to end incl. I2OSP/OS2IP, honest BB/ZSS/CL signatures), the (r, n-s) malleability, "
+    "RSA round trip for every residue and CRT recombination, EMSA-PSS decode-accepts-exactly-the-encoding — over abstract groups / Z/nZ; "
+    "soundness 'accepts only if the defining equation holds' is by construction of the specification verifier plus this comparison, it is "
+    "not a theorem about the C code; no model of the C verifiers' control flow is proved",
+    "NOT COVERED (PARTIAL): cp_mpss_* / cp_mpsb_* (two-party Pointcheval-Sanders), cp_cmlhs_*, cp_mklhs_* (homomorphic signatures); the OR "
+    "proofs' / ring signatures' completeness is compared, not proved; the ETRS specification is this check's reading of the scheme "
+    "(finding C05-8); SHA-256 / MGF1 are the specifications of C14, curve arithmetic that of C03, parameters those of C18",
 ]
 ASSUMPTIONS = [
-    "the group order n of every selectable curve is prime and the cofactor is 1 (checked by C18)",
-    "CP_RSAPD = PKCS2 (PSS, empty salt) in the pinned configuration; PKCS1 / BASIC paddings are exercised in two extra configurations",
+    "the group order n of every selectable curve is prime and the cofactor of G1 is 1 (checked by C18); pairing curves: BN_P256 (what "
+    "pc_param_set_any selects) and SM9_P256 (selected by hand with its M-type twist; no pc_* entry point selects it)",
+    "CP_RSAPD = PKCS2 (PSS, empty salt), CP_CRT on in the pinned configuration; PKCS1 and BASIC (+ CP_CRT off) are exercised in two extra "
+    "configurations; BN_PRECI = 1024 limits RSA moduli to 1024 bits and integer-valued messages (CL schemes) to 272 bytes",
+    "public keys must be valid group elements other than the identity (key generation never outputs the identity): a verifier that accepts a "
+    "triple under an identity / off-curve key is reported (findings C05-1, C05-2, C05-12)",
 ]
-RULE = ("per curve / key: keys from key generation (several seeds); message lengths 0, 1, 31..33, 55, 56, 63..65, 119..129, ~300; hash-then-sign "
-        "and pre-hashed; honest triple, (r, n-s), every listed single-bit flip of each component, single-byte message mutations, substitutions "
-        "0, 1, n-1, n, n+1, r+n, s+n, negative, swapped components, swapped / foreign / negated / identity / off-curve / other-curve public keys, "
-        "RSA: sig+N, 0, 1, N-1, N, zero-prefixed and shortened encodings, crafted encoded messages; non-trivial = distinct line with a verdict or value")
+RULE = ("per curve / key: keys from key generation (several seeds) plus boundary keys 1, n-1; message lengths 0, 1, 31..33, 55, 56, 63..65, "
+        "119..129, ~300; hash-then-sign and pre-hashed (digest lengths 0..64); honest triple, (r, n-s), listed single-bit flips of every scalar "
+        "component, single-byte message mutations, substitutions 0, 1, n-1, n, n+1, v+n, v-n, -v, n-v, 2^256+v, capacity-filling scalars, "
+        "swapped components, swapped / foreign / negated / identity / off-curve / other-curve public keys and point components, re-randomised "
+        "and re-ordered valid variants; RSA: sig+N, sig+2N, N-sig, 0, 1, N-1, N, zero-prefixed / shortened / extended encodings, bit flips, "
+        "foreign / altered keys, crafted encoded messages signed with the real key, modulus lengths 8k+1..8k+8; non-trivial = distinct line "
+        "with a verdict or value")
 
 USES_GENERATED = False
 EXTRA_THEOREM_MODULES = []
@@ -197,7 +218,7 @@ def gen_ec(ctx, exe, cid, cv, scale, other_pts):
                 V(Q, sha(m), r, s, 1)
                 V(Q, sha(m) + b"\x00", r, s, 1)     # longer digest: leftmost bits only
                 V(Q, sha(m)[:-1], r, s, 1)
-            heavy = full < 2 * scale or rng.chance(1, 12 if ctx.tier == "quick" else 4)
+            heavy = full < (1 if ctx.tier == "quick" else 2) * scale or rng.chance(1, 16 if ctx.tier == "quick" else 4)
             if heavy:
                 for b in BITPOS:
                     V(Q, m, r ^ (1 << b), s)
@@ -228,7 +249,7 @@ def gen_ec(ctx, exe, cid, cv, scale, other_pts):
             def W(Q_, m_, e_, s_):
                 lines.append("ecss_ver %s %s %s %s" % (pt(Q_), bx(m_), hx(e_), hx(s_)))
             W(Q, m, e, s)
-            heavy = full < 2 * scale or rng.chance(1, 12 if ctx.tier == "quick" else 4)
+            heavy = full < (1 if ctx.tier == "quick" else 2) * scale or rng.chance(1, 16 if ctx.tier == "quick" else 4)
             if heavy:
                 for b in BITPOS:
                     W(Q, m, e ^ (1 << b), s)
@@ -253,7 +274,7 @@ def gen_ec(ctx, exe, cid, cv, scale, other_pts):
     for dig in [b"\x00" * 32, b"\xff" * 32, n.to_bytes(32, "big"), (n - 1).to_bytes(32, "big"), (n + 1).to_bytes(32, "big"), b"", b"\x01",
                 b"\xff" * 33, b"\x80" + b"\x00" * 63, rng.bytes(48), rng.bytes(64), rng.bytes(20)]:
         e = bits2int(n, dig)
-        for k in (1, 2, n - 1, rng.bits(256) % n or 1):
+        for k in ((1, 2, n - 1, rng.bits(256) % n or 1) if ctx.tier != "quick" else (rng.choice([1, 2, n - 1]), rng.bits(256) % n or 1)):
             r, s = ecdsa_craft(cv, d, k, e)
             if r and s:
                 lines.append("ecdsa_ver 1 %s %s %x %x" % (pt(Q), bx(dig), r, s))
